@@ -1312,6 +1312,11 @@ func directiveSecRuleUpdateActionByID(options *DirectiveOptions) error {
 				}
 				updated++
 
+				ruleActions, err := resolveBlockAction(parsedActions, rules[i].Phase_, options)
+				if err != nil {
+					return err
+				}
+
 				// Only clear disruptive actions if the update contains a disruptive action
 				if hasDisruptiveAction {
 					rules[i].ClearDisruptiveActions()
@@ -1324,7 +1329,7 @@ func directiveSecRuleUpdateActionByID(options *DirectiveOptions) error {
 					},
 					defaultActions: map[types.RulePhase][]ruleAction{},
 				}
-				if err := rp.applyParsedActions(parsedActions); err != nil {
+				if err := rp.applyParsedActions(ruleActions); err != nil {
 					return err
 				}
 			}
@@ -1334,6 +1339,57 @@ func directiveSecRuleUpdateActionByID(options *DirectiveOptions) error {
 		return notFound
 	}
 	return nil
+}
+
+// resolveBlockAction replaces a block action of an update by the disruptive action that the default
+// actions of the rule's phase carry, which is what a rule written with block gets when it is parsed.
+// Without default actions for that phase the list is returned as it is.
+func resolveBlockAction(parsed []ruleAction, phase types.RulePhase, options *DirectiveOptions) ([]ruleAction, error) {
+	hasBlock := false
+	for _, a := range parsed {
+		if a.Key == "block" {
+			hasBlock = true
+		}
+	}
+	if !hasBlock {
+		return parsed, nil
+	}
+	rp := RuleParser{
+		rule:           corazawaf.NewRule(),
+		options:        RuleOptions{WAF: options.WAF},
+		defaultActions: map[types.RulePhase][]ruleAction{},
+	}
+	if options.Parser.HasRuleDefaultActions {
+		for _, da := range options.Parser.RuleDefaultActions {
+			if err := rp.ParseDefaultActions(da); err != nil {
+				return nil, err
+			}
+		}
+	}
+	if rp.defaultActions[types.PhaseRequestBody] == nil {
+		if err := rp.ParseDefaultActions(defaultActionsPhase2); err != nil {
+			return nil, err
+		}
+	}
+	var disruptive *ruleAction
+	defaults := rp.defaultActions[phase]
+	for i := range defaults {
+		if defaults[i].Atype == plugintypes.ActionTypeDisruptive {
+			disruptive = &defaults[i]
+		}
+	}
+	if disruptive == nil {
+		return parsed, nil
+	}
+	res := make([]ruleAction, 0, len(parsed))
+	for _, a := range parsed {
+		if a.Key == "block" {
+			res = append(res, *disruptive)
+			continue
+		}
+		res = append(res, a)
+	}
+	return res, nil
 }
 
 func updateActionBySingleID(id int, actions string, options *DirectiveOptions) error {
@@ -1353,6 +1409,9 @@ func updateActionBySingleID(id int, actions string, options *DirectiveOptions) e
 	// Check if any of the new actions are disruptive.
 	// hasDisruptiveActions returns false when parsedActions is empty or contains
 	// only non-disruptive actions, preserving existing disruptive actions on the rule.
+	if parsedActions, err = resolveBlockAction(parsedActions, rule.Phase_, options); err != nil {
+		return err
+	}
 	hasDisruptiveAction := hasDisruptiveActions(parsedActions)
 
 	// Only clear disruptive actions if the update contains a disruptive action
